@@ -640,6 +640,7 @@ type FuncContract struct {
 	Line       int
 	PanicFree  bool
 	NoContract bool
+	Unlocked   bool   // no lock is held on entry; all locks are released at every return (C09 discipline)
 	Holds      []Expr // objects whose type invariants are assumed at entry
 }
 
@@ -728,7 +729,7 @@ type cline struct {
 	line int
 }
 
-var clauseKeywords = map[string]bool{"package": true, "spec": true, "ghost": true, "lemma": true, "axiom": true, "invariant": true, "writer": true, "modset": true, "macro": true, "holds": true, "func": true, "requires": true, "ensures": true,
+var clauseKeywords = map[string]bool{"package": true, "spec": true, "ghost": true, "lemma": true, "axiom": true, "invariant": true, "writer": true, "modset": true, "macro": true, "holds": true, "unlocked": true, "func": true, "requires": true, "ensures": true,
 	"modifies": true, "decreases": true, "loop": true, "use": true, "trusted": true, "pure": true, "assert": true, "shared": true, "induct": true, "panicfree": true, "goimpl": true}
 
 func firstWord(s string) string {
@@ -1210,6 +1211,10 @@ func (cs *Contracts) Parse(lines []cline, pkg string) {
 				continue
 			}
 			cur.Holds = append(cur.Holds, he)
+		case "unlocked":
+			if cur != nil {
+				cur.Unlocked = true
+			}
 		case "pure":
 			if cur != nil {
 				cur.HasMod = true
